@@ -103,6 +103,11 @@ Definition spec_remove (t : tree) (p : rpath) : tree * (unit + errkind) :=
            end
   end.
 
+(* remove_all: the whole subtree at p goes, a missing path is fine. (On the root the real code empties the tree and then
+   reports the root's missing parent; the theorem about this call is stated for every other path.) *)
+Definition spec_remove_all (t : tree) (p : rpath) : tree * (unit + errkind) :=
+  (mkTree (t_cwd t) (filter (λ kv, ¬ p `suffix_of` kv.1) (t_nodes t)), inl tt).
+
 (* queries *)
 Definition spec_exists (t : tree) (p : rpath) : bool := bool_decide (is_Some (t_nodes t !! p)).
 Definition spec_is_dir (t : tree) (p : rpath) : bool := t_is_dir t p.
